@@ -19,6 +19,9 @@ const (
 	famBlockGroupsSmall   // 1x1x1, block-level groups from the 7-subset family
 	famConc2              // one block, exactly 2 sequences of one action
 	famSeqSmall           // one block, <=2 sequences, <=2 actions
+	famConc4              // one block, exactly 4 sequences of one action, Concurrency 2: a wave is still in flight when the loop re-checks
+	famContSeqs           // one block with continuous (and optionally deferred) checks and 3 sequences of one action
+	famConc4D             // famConc4 plus block-level deferred checks
 )
 
 func vhCfg(fam int) shape.Cfg {
@@ -45,6 +48,12 @@ func vhCfg(fam int) shape.Cfg {
 			BlockGroups: api.Bound("block_groups_family", shape.GroupsFamily, shape.GroupsAll), CheckActions: 1}
 	case famConc2:
 		return shape.Cfg{MinBlocks: 1, MaxBlocks: 1, MinSeqs: 2, MaxSeqs: 2, MinActions: 1, MaxActions: api.Bound("conc_actions", 1, 2)}
+	case famConc4:
+		return shape.Cfg{MinBlocks: 1, MaxBlocks: 1, MinSeqs: 4, MaxSeqs: 4, MinActions: 1, MaxActions: 1}
+	case famConc4D:
+		return shape.Cfg{MinBlocks: 1, MaxBlocks: 1, MinSeqs: 4, MaxSeqs: 4, MinActions: 1, MaxActions: 1, BlockGroups: shape.GroupsDeferred, CheckActions: 1}
+	case famContSeqs:
+		return shape.Cfg{MinBlocks: 1, MaxBlocks: 1, MinSeqs: 3, MaxSeqs: 3, MinActions: 1, MaxActions: 1, BlockGroups: shape.GroupsContDeferred, CheckActions: 1}
 	case famSeqSmall:
 		return shape.Cfg{MinBlocks: 1, MaxBlocks: 1, MinSeqs: 1, MaxSeqs: 2, MinActions: 1, MaxActions: 2, SimpleTailSeqs: true}
 	}
@@ -54,8 +63,29 @@ func vhCfg(fam int) shape.Cfg {
 // vhRunE: one uninterrupted run of the real engine from States.Start to End with the selected oracles.
 func vhRunE(orc int, fam int) {
 	w := vhNewWorld(vhCfg(fam), kit.ModeOkFail, orc)
+	vhFamAssume(w, fam)
 	w.run(false)
 	w.finish()
+}
+
+// vhFamAssume narrows Concurrency/ToleratedFailures for the families whose point is one particular relation between
+// the number of sequences and the concurrency (the generic families keep both fully symbolic).
+func vhFamAssume(w *vhWorld, fam int) {
+	b := w.plan.Blocks[0]
+	switch fam {
+	case famConc4, famConc4D:
+		// 4 sequences in waves of 2: the launch loop re-checks the tolerance while the first wave can still be in flight
+		api.Assume(b.Concurrency == 2)
+		if api.Bound("conc4_any_tolerance", 0, 1) == 0 {
+			api.Assume(b.ToleratedFailures == 0)
+		}
+	case famContSeqs:
+		// 3 sequences one at a time: the launch loop polls the continuous checks between launches
+		api.Assume(b.Concurrency == 1)
+		if api.Bound("contseqs_any_tolerance", 0, 1) == 0 {
+			api.Assume(b.ToleratedFailures == -1)
+		}
+	}
 }
 
 func VerifC01Seq()         { vhRunE(oC01, famSeq) }
@@ -63,12 +93,18 @@ func VerifC01PlanGroups()  { vhRunE(oC01, famPlanGroups) }
 func VerifC01BlockGroups() { vhRunE(oC01, famBlockGroups) }
 func VerifC01Conc()        { vhRunE(oC01, famConc) }
 
+func VerifC01Conc4()       { vhRunE(oC01, famConc4D) }
+func VerifC01ContSeqs()    { vhRunE(oC01, famContSeqs) }
+
 func VerifC02Conc() { vhRunE(oC02, famConc) }
 func VerifC02Seq()  { vhRunE(oC02, famSeq) }
 
 func VerifC03Conc() { vhRunE(oC03, famConc) }
 func VerifC03Seq()  { vhRunE(oC03, famSeq) }
 
+func VerifC04Conc4()       { vhRunE(oC04, famConc4) }
+func VerifC04ContSeqs()    { vhRunE(oC04, famContSeqs) }
+func VerifC07ContSeqs()    { vhRunE(oC07, famContSeqs) }
 func VerifC04Seq()         { vhRunE(oC04, famSeq) }
 func VerifC04PlanGroups()  { vhRunE(oC04, famPlanGroups) }
 func VerifC04BlockGroups() { vhRunE(oC04, famBlockGroups) }
